@@ -140,33 +140,33 @@ func runC04(r *ev.Run) {
 			model := e.Pre.Transact(e.Txn.Ops)
 			tp := templ(e.Txn.Name)
 			historyIndependence := func(e *dbx.Edge) {
-			// (f) history independence: a fresh database loaded with exactly the pre rows answers alike
-			if len(e.Hist) > 0 {
-				s2 := sys.New(dbs)
-				lres, lerr := s2.TransactRef(loadTxn(e.Pre))
-				ok := lerr == nil
-				for _, x := range lres {
-					if x.Error != "" {
-						ok = false
+				// (f) history independence: a fresh database loaded with exactly the pre rows answers alike
+				if len(e.Hist) > 0 {
+					s2 := sys.New(dbs)
+					lres, lerr := s2.TransactRef(loadTxn(e.Pre))
+					ok := lerr == nil
+					for _, x := range lres {
+						if x.Error != "" {
+							ok = false
+						}
 					}
+					if !ok {
+						r.Violation("c04.load-rejected."+tp, fmt.Sprintf("[%s] the rows stored after %v are rejected when inserted into a fresh database: %s", sname, e.HistName, ev.J(lres)), mkCase(sname, e, "load rejected", ""))
+						return
+					}
+					if s2.State().Dump() != e.Pre.Dump() {
+						r.Violation("c04.load-differs."+tp, fmt.Sprintf("[%s] loading the rows stored after %v gives different rows", sname, e.HistName), mkCase(sname, e, "load differs", s2.State().Dump()))
+						return
+					}
+					res2, err2 := s2.TransactRef(e.Txn.Ops)
+					post2 := s2.State()
+					if (err2 == nil) != (e.RPCErr == nil) || errShape(res2) != errShape(e.Res) || post2.Dump() != e.Post.Dump() {
+						r.Violation("c04.history-dependence."+tp,
+							fmt.Sprintf("[%s] %s: same rows reached by history vs loaded fresh answer differently: %s vs %s", sname, histStr(e), errShape(e.Res), errShape(res2)),
+							mkCase(sname, e, "history dependence", "fresh-load results: "+ev.J(res2)+"\nfresh-load post state:\n"+post2.Dump()))
+					}
+					r.Add("history_independence_checks", 1)
 				}
-				if !ok {
-					r.Violation("c04.load-rejected."+tp, fmt.Sprintf("[%s] the rows stored after %v are rejected when inserted into a fresh database: %s", sname, e.HistName, ev.J(lres)), mkCase(sname, e, "load rejected", ""))
-					return
-				}
-				if s2.State().Dump() != e.Pre.Dump() {
-					r.Violation("c04.load-differs."+tp, fmt.Sprintf("[%s] loading the rows stored after %v gives different rows", sname, e.HistName), mkCase(sname, e, "load differs", s2.State().Dump()))
-					return
-				}
-				res2, err2 := s2.TransactRef(e.Txn.Ops)
-				post2 := s2.State()
-				if (err2 == nil) != (e.RPCErr == nil) || errShape(res2) != errShape(e.Res) || post2.Dump() != e.Post.Dump() {
-					r.Violation("c04.history-dependence."+tp,
-						fmt.Sprintf("[%s] %s: same rows reached by history vs loaded fresh answer differently: %s vs %s", sname, histStr(e), errShape(e.Res), errShape(res2)),
-						mkCase(sname, e, "history dependence", "fresh-load results: "+ev.J(res2)+"\nfresh-load post state:\n"+post2.Dump()))
-				}
-				r.Add("history_independence_checks", 1)
-			}
 			}
 			r.Distinct("outcomes", fmt.Sprintf("%v/%v", e.Accepted, model.Accepted()))
 			if e.Depth == 0 && e.Hist == nil && len(e.Txn.Ops) > 1 {
